@@ -315,6 +315,19 @@ theorem loop_reads_only_rebuilt_state : ∀ f ∈ readInLoop, f ∈ assignedInPr
 `_rule_iter` from `_prev_sim_time`, `_prev_isolated_*` from the `_is_isolated` flags -/
 theorem modelled_state_rebuilt_from_network : ∀ f ∈ modelledSimState, f ∈ assignedInPrologue ∧ f ∈ prologueReadsWn := by decide
 
+/-- does a list of `WaterNetworkModel` collections cover every link class / every junction? -/
+def coversAllLinks (l : List String) : Bool :=
+  l.contains "links" || l.contains "link_name_list" ||
+    ((l.contains "pipes" || l.contains "pipe_name_list") && (l.contains "pumps" || l.contains "pump_name_list") &&
+      (l.contains "valves" || l.contains "valve_name_list"))
+def coversAllJunctions (l : List String) : Bool :=
+  l.contains "junctions" || l.contains "junction_name_list" || l.contains "nodes" || l.contains "node_name_list"
+
+/-- **(source obligation 3b)** the rebuild of `_prev_isolated_links` iterates over ALL link classes (pipes, pumps AND
+valves) and that of `_prev_isolated_junctions` over all junctions — `flagged` in Model/Restart ranges over every index -/
+theorem prev_isolated_rebuilt_over_all_elements :
+    coversAllLinks prevIsoLinkSources = true ∧ coversAllJunctions prevIsoJunctionSources = true := by decide
+
 /-- **(source obligation 4)** the only network attributes the loop stores through `self._wn` are the clock fields (part
 of the core `C`); everything else goes through element objects owned by the network -/
 theorem loop_stores_only_clock_in_wn : ∀ f ∈ wnStoredInLoop, f ∈ ["sim_time", "_prev_sim_time"] := by decide
